@@ -51,7 +51,7 @@ RULE = (
     "transform(X[S]) = transform(X[T])|S is evaluated label by label; a trace is a maximal chain (singleton -> whole data set) all of whose "
     "states and edges were validated. Alphabet: model class (EOF, ComplexEOF, SparsePCA, POP, EOFRotator, ComplexEOFRotator, CPCCA alpha .5/1, "
     "MCA, CCA, RDA, ComplexCPCCA, ComplexMCA [ComplexCCA, ComplexRDA thorough], CPCCARotator alpha .5/1, MCARotator, ComplexCPCCARotator, "
-    "ComplexMCARotator, multi.CCA) x sample structure (one dim, two dims, MultiIndex, fit MultiIndex/new plain, fit plain/new MultiIndex, list of two fields on one sample dim) x "
+    "ComplexMCARotator, multi.CCA; option variants on the base layouts: rotator power 2 (3 thorough) for every rotator class, per-field alpha [.5,1] and n_pca_modes [3,2], MCA with PCA) x sample structure (one dim, two dims, MultiIndex, fit MultiIndex/new plain, fit plain/new MultiIndex, list of two fields on one sample dim) x "
     "coordinates (disjoint, overlapping, equal to training, repeated, training rows at own / at new coordinates, one all-NaN sample, repeated labels with an all-NaN sample sharing / not sharing its label with valid samples; list input: items entirely missing at different samples, equal and unequal counts) x "
     "n_new = 5 (two dims: 3x2 block; quick: 3 resp. 2x2 outside the key classes), whose lattice contains as lower ideals the complete lattices of "
     "its 1..4-sample (1x1..2x2) prefixes, x arguments (X and Y, X only, Y only) [x normalized (quick: one_dim, disjoint/train_subset only), standardize+coslat: thorough]"
@@ -101,10 +101,28 @@ MODELS = {
     "MCARotator": ("cross", "MCARotator", "MCA", dict(n_modes=2, power=1), dict(n_modes=3, use_pca=False, random_state=3), False),
     "ComplexCPCCARotator_a05": ("cross", "ComplexCPCCARotator", "ComplexCPCCA", dict(n_modes=2, power=1), dict(n_modes=3, alpha=0.5, random_state=3, **_PCA), True),
     "ComplexMCARotator": ("cross", "ComplexMCARotator", "ComplexMCA", dict(n_modes=2, power=1), dict(n_modes=3, use_pca=False, random_state=3), True),
+    # ---- option variants: constructor options that select another code path in transform (oblique rotation R^-T != R,
+    #      per-field alpha / PCA truncation). Explored on the base layouts (see VARIANT_MODELS)
+    "ComplexEOFRotator_p2": ("single", "ComplexEOFRotator", "ComplexEOF", dict(n_modes=3, power=2), dict(n_modes=4, random_state=3), True),
+    "EOFRotator_p3": ("single", "EOFRotator", "EOF", dict(n_modes=3, power=3), dict(n_modes=4, random_state=3), False),
+    "CPCCARotator_a05_p2": ("cross", "CPCCARotator", "CPCCA", dict(n_modes=2, power=2), dict(n_modes=3, alpha=0.5, random_state=3, **_PCA), False),
+    "MCARotator_p2": ("cross", "MCARotator", "MCA", dict(n_modes=2, power=2), dict(n_modes=3, use_pca=False, random_state=3), False),
+    "MCARotator_p3": ("cross", "MCARotator", "MCA", dict(n_modes=2, power=3), dict(n_modes=3, use_pca=False, random_state=3), False),
+    "ComplexCPCCARotator_a05_p2": ("cross", "ComplexCPCCARotator", "ComplexCPCCA", dict(n_modes=2, power=2), dict(n_modes=3, alpha=0.5, random_state=3, **_PCA), True),
+    "ComplexMCARotator_p2": ("cross", "ComplexMCARotator", "ComplexMCA", dict(n_modes=2, power=2), dict(n_modes=3, use_pca=False, random_state=3), True),
+    "CPCCA_a05_a1_pca32": ("cross", "CPCCA", None, dict(n_modes=2, alpha=[0.5, 1.0], use_pca=True, n_pca_modes=[3, 2], random_state=3), None, False),
+    "MCA_pca32": ("cross", "MCA", None, dict(n_modes=2, use_pca=True, n_pca_modes=[3, 2], random_state=3), None, False),
+    "CPCCARotator_a05_a1_pca32": ("cross", "CPCCARotator", "CPCCA", dict(n_modes=2, power=1), dict(n_modes=2, alpha=[0.5, 1.0], use_pca=True, n_pca_modes=[3, 2], random_state=3), False),
     "multi.CCA": ("multi", "CCA", None, dict(n_modes=2, pca=False), None, False),
     "multi.CCA_pca": ("multi", "CCA", None, dict(n_modes=2, pca=True, variance_fraction=0.9, init_pca_modes=3), None, False),
 }
-THOROUGH_ONLY_MODELS = ("EOFRotator_p2", "CPCCA_a1", "RDA", "ComplexCPCCA_a05", "ComplexCCA", "ComplexRDA", "CPCCARotator_a1", "ComplexMCARotator", "multi.CCA_pca")
+# option variants run on the base layouts only: one_dim (+ two_dims thorough), the coordinate classes below, not Y-only
+VARIANT_MODELS = (
+    "EOFRotator_p2", "ComplexEOFRotator_p2", "EOFRotator_p3", "CPCCARotator_a05_p2", "MCARotator_p2", "MCARotator_p3", "ComplexCPCCARotator_a05_p2",
+    "ComplexMCARotator_p2", "CPCCA_a05_a1_pca32", "MCA_pca32", "CPCCARotator_a05_a1_pca32",
+)
+VARIANT_COORDS = {"quick": ("disjoint", "train_subset"), "thorough": ("disjoint", "repeats", "train_subset", "train_moved", "nan_sample")}
+THOROUGH_ONLY_MODELS = ("EOFRotator_p3", "MCARotator_p3", "ComplexMCARotator_p2", "CPCCA_a1", "RDA", "ComplexCPCCA_a05", "ComplexCCA", "ComplexRDA", "CPCCARotator_a1", "ComplexMCARotator", "multi.CCA_pca")
 
 
 def class_of(model):
@@ -177,12 +195,18 @@ def cases(tier, seed):
         for structure in STRUCTURES:
             if structure == "list_one_dim" and (fam == "multi" or (quick and model not in QUICK_LIST_MODELS)):
                 continue
+            if model in VARIANT_MODELS and structure not in (("one_dim",) if quick else ("one_dim", "two_dims")):
+                continue
             for coords in COORDS:
                 for args in argsets:
                     for normalized in (False, True):
                         for prep in ("default", "std_coslat"):
                             secondary = normalized or prep != "default"
                             if fam == "multi" and secondary:
+                                continue
+                            if model in VARIANT_MODELS and (coords not in VARIANT_COORDS[tier] or args == "Y" or prep != "default" or (normalized and coords == "repeats")):
+                                continue
+                            if model in VARIANT_MODELS and quick and (normalized or (fam == "cross" and args != "XY")):
                                 continue
                             if secondary:
                                 # secondary dimensions: thorough only, base layouts, not Y-only, one at a time
@@ -569,6 +593,8 @@ def run_case(case, seed):
     feats = dict(structure=structure, coords=coords)
     if "_a05" in case["model"]:
         feats["alpha_lt_1"] = True
+    if MODELS[case["model"]][3].get("power", 1) > 1:
+        feats["oblique"] = True
     V, seen = [], set()
 
     def bad(check, msg, **extra):
